@@ -130,3 +130,42 @@ def emission(log):
                             "initialAckEl": any(p["type"] == "initial" and p.get("ok") and p.get("ackel") for p in ps),
                             "chal": [f["id"] for p in ps for f in p.get("frames", []) if f["t"] == "path_challenge"]})
     return out
+
+
+def flowsend(log):
+    cfg = next(e["cfg"] for e in log if e["k"] == "cfg")
+    c_msd, c_md = cfg["max_stream_data"], cfg["max_data"]
+    s_msd = cfg["s_max_stream_data"] if cfg.get("s_max_stream_data") is not None else c_msd
+    s_md = cfg["s_max_data"] if cfg.get("s_max_data") is not None else c_md
+    ms = cfg.get("max_streams") or 128
+    # limits *given to* c are the server's configuration and vice versa
+    out = [{"ev": "init", "sl_c": s_msd, "cl_c": s_md, "mb_c": ms, "mu_c": ms, "sl_s": c_msd, "cl_s": c_md, "mb_s": ms, "mu_s": ms}]
+    pk = {}
+    for e in log:
+        if e["k"] == "pkt":
+            pk.setdefault(e["dg"], []).append(e)
+    for e in log:
+        k = e["k"]
+        if k == "arr" and e["haskeys"]:
+            for f in pk[e["dg"]][e["idx"]].get("frames", []):
+                if f["t"] == "max_stream_data":
+                    out.append({"ev": "lim", "ep": e["ep"], "kind": "stream", "sid": f["sid"], "value": f["max"]})
+                elif f["t"] == "max_data":
+                    out.append({"ev": "lim", "ep": e["ep"], "kind": "conn", "sid": 0, "value": f["max"]})
+                elif f["t"] == "max_streams":
+                    out.append({"ev": "lim", "ep": e["ep"], "kind": "uni" if f["uni"] else "bidi", "sid": 0, "value": f["max"]})
+        elif k == "pkt" and e.get("ok") and "frames" in e:
+            ends = [[f["sid"], f["off"] + f["len"]] for f in e["frames"] if f["t"] == "stream"]
+            ends += [[f["sid"], f["final"]] for f in e["frames"] if f["t"] == "reset_stream"]
+            if ends:
+                out.append({"ev": "sent", "ep": e["ep"], "ends": ends})
+        elif k == "api" and not e["raised"]:
+            if e["call"] == "write":
+                out.append({"ev": "write", "ep": e["ep"], "sid": e["sid"], "n": e["n"]})
+            elif e["call"] == "reset":
+                out.append({"ev": "reset", "ep": e["ep"], "sid": e["sid"]})
+            elif e["call"] == "stop":
+                out.append({"ev": "reset", "ep": other(e["ep"]), "sid": e["sid"]})
+        elif k == "end":
+            out.append({"ev": "end", "terminated": any(x["k"] == "ev" and x["cls"] == "ConnectionTerminated" for x in log)})
+    return out
